@@ -283,6 +283,7 @@ package oras
 //@   requires [wf] src != nil
 //@   ensures@2 [C03:artifact-manifest-type] result1 == nil ==> result0 == manifest.ArtifactType
 //@   ensures@4 [C03:artifactType-else-config] result1 == nil ==> result0 == (manifest.ArtifactType != "" ? manifest.ArtifactType : manifest.Config.MediaType)
+//@   ensures@5 [C03:artifactType-else-config] result1 == nil ==> result0 == (manifest.ArtifactType != "" ? manifest.ArtifactType : manifest.Config.MediaType)
 //@   ensures [C03:other-media-types-have-no-type] desc.MediaType != "application/vnd.oci.artifact.manifest.v1+json" && desc.MediaType != "application/vnd.oci.image.manifest.v1+json" && result1 == nil ==> result0 == ""
 //@
 //@ func fetchAnnotations
